@@ -19,9 +19,12 @@ package v1
 //@   // (the fallback gas limit when the entry has none) and the builder section's grace time
 //@   ensures entryFor(e, pubkey) != nil && entryFor(e, pubkey).Builder != nil && entryFor(e, pubkey).Builder.Enabled ==> len(result0.Relays) == len(entryFor(e, pubkey).Builder.Relays) && (forall k int :: 0 <= k && k < len(result0.Relays) ==> result0.Relays[k] != nil && result0.Relays[k].Address == entryFor(e, pubkey).Builder.Relays[k] && result0.Relays[k].FeeRecipient == entryFor(e, pubkey).FeeRecipient && result0.Relays[k].GasLimit == (entryFor(e, pubkey).GasLimit == 0 ? fallbackGasLimit : entryFor(e, pubkey).GasLimit) && result0.Relays[k].Grace == entryFor(e, pubkey).Builder.Grace)
 //@   ensures entryFor(e, pubkey) != nil && (entryFor(e, pubkey).Builder == nil || !entryFor(e, pubkey).Builder.Enabled) ==> len(result0.Relays) == 0
+//@   // (the loop is only entered with an entry whose builder section is enabled; the facts are stated about that entry,
+//@   // not about the function's temporaries)
 //@   loop 1
-//@     invariant -1 <= rangeindex && rangeindex < len(builder.Relays) && len(relays) == rangeindex + 1
-//@     invariant forall k int :: 0 <= k && k <= rangeindex ==> relays[k] != nil && relays[k].Address == builder.Relays[k] && relays[k].FeeRecipient == proposerConfig.FeeRecipient && relays[k].GasLimit == gasLimit && relays[k].Grace == builder.Grace
+//@     invariant entryFor(e, pubkey) != nil && proposerConfig == entryFor(e, pubkey) && proposerConfig.Builder != nil && proposerConfig.Builder == old(entryFor(e, pubkey).Builder)
+//@     invariant -1 <= rangeindex && rangeindex < len(proposerConfig.Builder.Relays) && len(relays) == rangeindex + 1
+//@     invariant forall k int :: 0 <= k && k <= rangeindex ==> relays[k] != nil && relays[k].Address == proposerConfig.Builder.Relays[k] && relays[k].FeeRecipient == proposerConfig.FeeRecipient && relays[k].GasLimit == (old(entryFor(e, pubkey).GasLimit) == 0 ? fallbackGasLimit : old(entryFor(e, pubkey).GasLimit)) && relays[k].Grace == proposerConfig.Builder.Grace
 //@   // C17: the lookup runs under the block relay's read lock, concurrently with other lookups of the same configuration:
 //@   // it writes nothing that existed before
 //@   modifies nothing
